@@ -8,6 +8,7 @@
 mod astwalk;
 mod gates;
 mod gen_syntax;
+mod gen_valid;
 mod lexeme;
 mod names;
 mod panicx;
@@ -32,10 +33,16 @@ pub struct Ctx {
 
 impl Ctx {
     pub fn gates(&self) -> Gates {
+        self.gates_for("")
+    }
+    /// gates switched off for property `prop`: those of every `known` finding whose scope is
+    /// "all" (default: a defect of a shared front-end stage is excluded from every generator)
+    /// plus those of the property's own findings
+    pub fn gates_for(&self, prop: &str) -> Gates {
         if self.all_gates_on {
             Gates::all_on()
         } else {
-            Gates::with_off(report::gates_off(&self.findings))
+            Gates::with_off(report::gates_off(&self.findings, prop))
         }
     }
 }
@@ -96,6 +103,9 @@ fn main() {
                 let v: serde_json::Value = serde_json::from_str(&std::fs::read_to_string(path).expect("read replay")).expect("replay json");
                 match id {
                     "C01" => props::c01::replay(&ctx, &v),
+                    "C10" => props::c10::replay(&ctx, &v),
+                    "C02" => props::c02::replay(&ctx, &v),
+                    "C08" => props::c08::replay(&ctx, &v),
                     _ => {
                         eprintln!("unknown property {}", id);
                         2
@@ -104,6 +114,9 @@ fn main() {
             } else {
                 match id {
                     "C01" => props::c01::run(&ctx),
+                    "C10" => props::c10::run(&ctx),
+                    "C02" => props::c02::run(&ctx),
+                    "C08" => props::c08::run(&ctx),
                     _ => {
                         eprintln!("unknown property {}", id);
                         2
